@@ -108,7 +108,7 @@ pub fn run(out: &mut Out, thorough: bool, seed: u64, _extra: &[String]) {
                 else { out.raw(&format!("!FAIL pair_budget {} {} :: operand budgets {} / {} but the result has {} (more than ceil(log2 2)+1 = 2 bits lost) # pairs-{}", s.ct_case(&v), name, ba, bb, br, name)); }
             }
         }
-        // k-fold sums of same-level, same-factor ciphertexts: min budget - ceil(log2 k) - 1
+        // k-fold sums of same-level, same-factor ciphertexts: min budget - ceil(log2 k) - 1 (even k: value-returning form, odd k: destination form, dirty destination)
         for _ in 0..4 {
             let k = r.range(2, 9) as usize;
             let base = &prog.pool[r.below(prog.pool.len() as u64) as usize];
@@ -117,7 +117,7 @@ pub fn run(out: &mut Out, thorough: bool, seed: u64, _extra: &[String]) {
             let chosen: Vec<&Item> = (0..k).map(|_| ops[r.below(ops.len() as u64) as usize]).collect();
             let minb = chosen.iter().map(|x| budget(&s, &x.ct)).min().unwrap();
             let cts: Vec<Ciphertext> = chosen.iter().map(|x| x.ct.clone()).collect();
-            let sum = match std::panic::catch_unwind(std::panic::AssertUnwindSafe(|| s.evaluator.add_many_new(&cts))) { Ok(c) => c, Err(_) => continue };
+            let sum = match std::panic::catch_unwind(std::panic::AssertUnwindSafe(|| if k % 2 == 0 { s.evaluator.add_many_new(&cts) } else { let mut d = prog.pool[0].ct.clone(); s.evaluator.add_many(&cts, &mut d); d })) { Ok(c) => c, Err(_) => continue };
             let sb = budget(&s, &sum);
             let lg = (k as f64).log2().ceil() as usize;
             let v = coef_view(&s, &sum);
